@@ -10,7 +10,7 @@ from . import tlc
 from .num import cq, wshape
 from .tlaval import iter_dump_states
 
-INVS = ["HermitianOK", "MeanOK", "OrderOK", "ReversibleOK", "DissipativeOK", "DiffusionPSD", "InclusionOK", "Mix1dOK", "SemiRealOK", "DerivativeOK", "ParityOK", "SemigroupOK"]
+INVS = ["HermitianOK", "MeanOK", "OrderOK", "ReversibleOK", "DissipativeOK", "DiffusionPSD", "InclusionOK", "Mix1dOK", "SemiRealOK", "DerivativeOK", "ParityOK", "EquivOK", "GroupOK", "SemigroupOK"]
 
 QUICK_DN = [1003, 1004, 1005, 1008, 1009, 1016, 2003, 2004, 2005, 2006, 3003, 3004]
 THOR_DN = [1000 + n for n in list(range(3, 34)) + [49, 64, 98]] + [2000 + n for n in range(3, 13)] + [3000 + n for n in range(3, 8)]
